@@ -23,7 +23,7 @@ def plan(ctx):
     k = P.per_interp_shards(ctx)
     for v in ctx.producers:
         if ctx.tier == "quick":
-            cases = P.corpus_cases(ctx, v, n_files=70, n_w3=60, modes=8, max_file_bytes=100000)
+            cases = P.corpus_cases(ctx, v, n_files=300, n_w3=120, modes=30, max_file_bytes=200000)
         else:
             cases = P.corpus_cases(ctx, v, all_files=True, n_w3=1000, modes=150)
         shards.extend(P.split(ctx, v, cases, k, "C09:"))
